@@ -7,6 +7,7 @@
 EXTENDS Props
 
 Pred(r) == ~r.unk
+NoIds(ms) == [i \in 1..Len(ms) |-> [SemMsg(ms[i]) EXCEPT !.id = 0]]
 MetaNZ(w) == [a \in Accts(w) |-> [k \in {x \in DOMAIN w.acct[a].esdt : w.acct[a].esdt[x].hm} |-> w.acct[a].esdt[k].meta]]
 SupplyFns == {"ESDTLocalMint", "ESDTNFTAddQuantity", "ESDTNFTCreate", "ESDTLocalBurn", "ESDTBurn", "ESDTNFTBurn", "ESDTWipe"}
 RoleGated == {"ESDTLocalMint", "ESDTLocalBurn", "ESDTNFTCreate", "ESDTNFTAddQuantity", "ESDTNFTBurn", "ESDTNFTAddURI", "ESDTNFTUpdateAttributes"}
@@ -23,6 +24,16 @@ P01_Exact(w, ev, w2, h, r) ==
   (Call(ev) /\ ev.fn \in TokenFns /\ IsOk(ev) /\ Pred(r)) => (r.ok /\ Bal(w2) = Bal(r.w) /\ Carried(w2) = Carried(r.w))
 P01_DeliveryAccepted(w, ev, w2, h, r) ==
   (ev.a = "deliver" /\ ev.fn \in TokenFns /\ ~ev.rae /\ Pred(r) /\ r.ok) => IsOk(ev)
+\* stated without the reference operator: a delivery to a destination that carries no flag at all, is payable and holds no
+\* entry with metadata under the delivered keys is accepted
+NominalDest(w, ev) ==
+  /\ Known(ev.rcpt) /\ ev.rcpt \in Accts(w) /\ ShardOfA(ev.rcpt) >= 0
+  /\ \A k \in DOMAIN w.acct[ev.rcpt].esdt : ~FlagSet(w.acct[ev.rcpt].esdt[k].props) /\ w.acct[ev.rcpt].esdt[k].type = 0
+  /\ \A t \in DOMAIN w.paused[ShStr(ShardOfA(ev.rcpt))] : ~FlagSet(w.paused[ShStr(ShardOfA(ev.rcpt))][t])
+  /\ PayableOK(w, ev.rcpt)
+  /\ w.acct[ev.rcpt].bad = <<>>
+P01_DeliveryNominal(w, ev, w2, h, r) ==
+  (ev.a = "deliver" /\ ev.fn \in TokenFns /\ ~ev.rae /\ NominalDest(w, ev) /\ \A x \in Range(MsgItems([fn |-> ev.fn, args |-> ev.args])) : x.qty > 0) => IsOk(ev)
 P01_RefundRestores(w, ev, w2, h, r) ==
   (ev.a = "deliver" /\ ev.fn \in TokenFns /\ ev.rae /\ Pred(r) /\ r.ok) => (IsOk(ev) /\ Bal(w2) = Bal(r.w))
 P01_FailKeeps(w, ev, w2, h, r) ==
@@ -181,19 +192,99 @@ P09_Rejected(w, ev, w2, h, r) ==
 
 \* C16
 P16_Price(w, ev, w2, h, r) ==
-  (ev.a = "exec" /\ IsOk(ev) /\ Pred(r) /\ r.ok /\ ev.snd /\ ev.gas < HugeGas) =>
-     LET rf == SumSeq([i \in 1..Len(r.out) |-> IF r.out[i].tx THEN 0 ELSE r.out[i].gas]) IN
-     (ev.gas - ev.gr - ev.fwd) = (ev.gas - r.gr - rf)
+  (ev.a = "exec" /\ IsOk(ev) /\ Pred(r) /\ r.ok /\ ev.snd) =>
+     LET rf == SumSeq([i \in 1..Len(r.out) |-> IF r.out[i].tx THEN 0 ELSE r.out[i].gas])
+         model == ev.gas - r.gr - rf IN
+     IF ev.gascls = "" THEN (ev.gas - ev.gr - ev.fwd) = model
+     ELSE ("consumed" \in DOMAIN ev.x /\ ev.x.consumed = model)
+\* the consumption measured by a probe execution with ample gas is the model's price too (also for steps that then failed for lack of gas)
+P16_ProbePrice(w, ev, w2, h, r) ==
+  (ev.a = "exec" /\ ev.snd /\ "used" \in DOMAIN ev.x /\ ev.gas < HugeGas) =>
+     LET r2 == Exec(w, [ev EXCEPT !.gas = 900000000])
+         rf == SumSeq([i \in 1..Len(r2.out) |-> IF r2.out[i].tx THEN 0 ELSE r2.out[i].gas]) IN
+     (Pred(r2) /\ r2.ok) => ev.x.used = 900000000 - r2.gr - rf
+\* a call accepted although the model's price exceeds the provided gas
+P16_Charged(w, ev, w2, h, r) ==
+  (ev.a = "exec" /\ ev.snd /\ Pred(r) /\ ~r.ok /\ IsOk(ev) /\ ev.gas < HugeGas) =>
+     LET r2 == Exec(w, [ev EXCEPT !.gas = 900000000]) IN ~(Pred(r2) /\ r2.ok)
+
+\* C10
+Key(tok, n) == tok \o NBHex(n)
+RECURSIVE ParSum(_, _)
+ParSum(items, k) == IF items = <<>> THEN 0 ELSE (IF Key(Head(items).tok, Head(items).nonce) = k THEN Head(items).val ELSE 0) + ParSum(Tail(items), k)
+ParKeys(items) == {Key(items[i].tok, items[i].nonce) : i \in 1..Len(items)}
+DestOf(ev) ==
+  IF ev.fn = "ESDTTransfer" \/ ev.caller # ev.rcpt THEN ev.rcpt
+  ELSE IF ev.fn = "ESDTNFTTransfer" THEN NameOfArg(Arg(ev,4)) ELSE NameOfArg(Arg(ev,1))
+CallStart(ev) ==     \* index of the attached function name in the arguments (1-based)
+  IF ev.fn = "ESDTTransfer" THEN 3
+  ELSE IF ev.fn = "ESDTNFTTransfer" THEN 5
+  ELSE IF ev.caller = ev.rcpt THEN (IF Arg(ev,2).n < 0 THEN 0 ELSE 3 * Arg(ev,2).n + 3) ELSE (IF Arg(ev,1).n < 0 THEN 0 ELSE 3 * Arg(ev,1).n + 2)
+KeysOf(w, a) == IF a \in Accts(w) THEN DOMAIN w.acct[a].esdt ELSE {}
+P10_ParserEqualsLedger(w, ev, w2, h, r) ==
+  (Call(ev) /\ IsOk(ev) /\ ev.fn \in TokenFns) =>
+     /\ ev.par.ok /\ ~ev.par.panic
+     /\ LET dest == DestOf(ev)
+            its == ev.par.items
+            ks == ParKeys(its) IN
+        /\ ev.par.rcv = dest
+        /\ (ev.snd /\ ev.caller # dest) => \A k \in ks \cup KeysOf(w, ev.caller) : ValAt(w, ev.caller, k) - ValAt(w2, ev.caller, k) = ParSum(its, k)
+        /\ (dest \in Accts(w) /\ ev.caller # dest /\ Known(dest) /\ ShardOfA(dest) = ev.sh) =>
+              \A k \in ks \cup KeysOf(w2, dest) : ValAt(w2, dest, k) - ValAt(w, dest, k) = ParSum(its, k)
+        /\ LET cs == CallStart(ev) IN
+           IF cs = 0 THEN TRUE ELSE IF NArgs(ev) >= cs THEN (ev.par.callfn = Arg(ev, cs).h /\ ev.par.callargs = [i \in 1..(NArgs(ev) - cs) |-> Arg(ev, cs + i).h])
+           ELSE (ev.par.callfn = "" /\ ev.par.callargs = <<>>)
+\* the call-data grammar cannot represent an empty function name or one containing '@' (0x40): such attached calls are outside the property
+HasAt(hx) == \E i \in 1..(Len(hx) \div 2) : SubSeq(hx, 2 * i - 1, 2 * i) = "40"
+Representable(m) == ~(Len(m.fn) >= 2 /\ SubSeq(m.fn, 1, 2) = "0x" /\ (Len(m.fn) = 2 \/ HasAt(SubSeq(m.fn, 3, Len(m.fn)))))
+P10_RoundTrip(w, ev, w2, h, r) ==
+  (Call(ev) /\ IsOk(ev) /\ Pred(r) /\ r.ok /\ \A i \in 1..Len(r.out) : Representable(r.out[i])) =>
+     /\ \A i \in 1..Len(ev.out) : ~ev.out[i].perr
+     /\ NoIds(ev.out) = NoIds(r.out)
+P10_Accepted(w, ev, w2, h, r) ==
+  (ev.a = "deliver" /\ ~ev.rae /\ Pred(r) /\ r.ok) => IsOk(ev)
+
+\* C11
+ShapeBad(ev) ==
+  LET n == NArgs(ev) IN
+  CASE ev.fn \in {"ESDTTransfer", "ESDTLocalMint", "ESDTLocalBurn", "ESDTSetRole", "ESDTUnSetRole"} -> n < 2
+    [] ev.fn = "ESDTBurn" -> n # 2
+    [] ev.fn \in {"ESDTFreeze", "ESDTUnFreeze", "ESDTWipe", "ESDTPause", "ESDTUnPause", "SetUserName"} -> n # 1
+    [] ev.fn = "ChangeOwnerAddress" -> n = 0 \/ (Known(ev.caller) /\ BLen(Arg(ev,1).h) # ALen(ev.caller))
+    [] ev.fn = "SaveKeyValue" -> n < 2 \/ n % 2 # 0
+    [] ev.fn = "ESDTNFTCreate" -> n < 7
+    [] ev.fn \in {"ESDTNFTAddQuantity", "ESDTNFTBurn", "ESDTNFTAddURI"} -> n < 3
+    [] ev.fn = "ESDTNFTUpdateAttributes" -> n # 3
+    [] ev.fn = "ESDTNFTCreateRoleTransfer" -> n # 2
+    [] ev.fn = "ESDTNFTTransfer" -> n < 4 \/ (ev.caller = ev.rcpt /\ Known(ev.caller) /\ BLen(Arg(ev,4).h) # ALen(ev.caller))
+    [] ev.fn = "MultiESDTNFTTransfer" ->
+         \/ n < 4
+         \/ (ev.caller = ev.rcpt /\ Known(ev.caller) /\ BLen(Arg(ev,1).h) # ALen(ev.caller))
+         \/ LET k == IF ev.caller = ev.rcpt THEN Arg(ev,2).n ELSE Arg(ev,1).n
+                 st == IF ev.caller = ev.rcpt THEN 2 ELSE 1 IN
+            k = 0 \/ k = HugeN \/ (k > 0 /\ n < 3 * k + st)
+    [] OTHER -> FALSE
+P11_Shape(w, ev, w2, h, r) == Call(ev) => ev.res \in {"ok", "err"}
+P11_ShapeVerdict(w, ev, w2, h, r) == (Call(ev) /\ ShapeBad(ev)) => ~IsOk(ev)
+P11_Alloc(w, ev, w2, h, r) == (Call(ev) /\ "allocok" \in DOMAIN ev.x) => ev.x.allocok
+
+\* C13
+P13_Replicas(w, ev, w2, h, r) == (Call(ev) /\ "d1" \in DOMAIN ev.x) => (ev.x.d1 = ev.x.d2 /\ ev.x.d1 = ev.x.d3)
+P13_InputIntact(w, ev, w2, h, r) == (Call(ev) /\ "intact" \in DOMAIN ev.x) => ev.x.intact
+
+\* C17: an injected dependency failure that fired is reported as an error (storage reads and the pause lookup may be fail-soft)
+HardFault(kind, fn) == kind \in {"write", "load", "save", "marshal", "unmarshal", "payable", "acctop"} \/ (kind = "sysload" /\ fn \in {"ESDTPause", "ESDTUnPause"})
+P17_FaultIsError(w, ev, w2, h, r) == (ev.a = "fault" /\ ev.x.fired /\ HardFault(ev.x.kind, ev.fn)) => ev.res = "err"
+P17_NoPanic(w, ev, w2, h, r) == ev.a = "fault" => ev.res \in {"ok", "err"}
 
 \* full agreement with the reference model ("drift" when false; never an alarm by itself)
-NoIds(ms) == [i \in 1..Len(ms) |-> [SemMsg(ms[i]) EXCEPT !.id = 0]]
 DiffParts(w, ev, w2, r) ==
   (IF IsOk(ev) # r.ok THEN {<<"res">>} ELSE {}) \cup (IF w2.acct # r.w.acct THEN {<<"acct">>} ELSE {}) \cup (IF w2.paused # r.w.paused THEN {<<"paused">>} ELSE {})
   \cup (IF SemMsgs(w2.msgs) # SemMsgs(r.w.msgs) THEN {<<"msgs">>} ELSE {}) \cup (IF w2.nextId # r.w.nextId THEN {<<"nextId">>} ELSE {})
-  \cup (IF IsOk(ev) /\ ev.gr # r.gr THEN {<<"gr", ev.gr, r.gr>>} ELSE {}) \cup (IF IsOk(ev) /\ NoIds(ev.out) # NoIds(r.out) THEN {<<"out">>} ELSE {})
+  \cup (IF IsOk(ev) /\ ev.gascls = "" /\ ev.gr # r.gr THEN {<<"gr", ev.gr, r.gr>>} ELSE {}) \cup (IF IsOk(ev) /\ NoIds(ev.out) # NoIds(r.out) THEN {<<"out">>} ELSE {})
   \cup (IF IsOk(ev) /\ ev.ret # r.ret THEN {<<"ret">>} ELSE {})
   \cup {<<"acct", a>> : a \in {x \in DOMAIN w2.acct : x \in DOMAIN r.w.acct /\ w2.acct[x] # r.w.acct[x]}}
 Conforms(w, ev, w2, h, r) ==
-  Call(ev) => (r.unk \/ ((IsOk(ev) = r.ok) /\ SemWorld(w2) = SemWorld(r.w) /\ (IsOk(ev) => (ev.gr = r.gr /\ NoIds(ev.out) = NoIds(r.out) /\ ev.ret = r.ret))))
+  Call(ev) => (r.unk \/ ((IsOk(ev) = r.ok) /\ SemWorld(w2) = SemWorld(r.w) /\ (IsOk(ev) => ((ev.gascls # "" \/ ev.gr = r.gr) /\ NoIds(ev.out) = NoIds(r.out) /\ ev.ret = r.ret))))
 
 =============================================================================
